@@ -154,7 +154,10 @@ _old_obligations = obligations
 
 def obligations(ctx, cfg):
     from props.actor_steps import ActorLoop
-    return _old_obligations(ctx, cfg) + [C04c(), ActorLoop(ctx, 2, 1, 1, False, 'deadline', 'C04.f-actor-loop')]
+    return _old_obligations(ctx, cfg) + [C04c(), ActorLoop(ctx, 2, 1, 1, False, 'deadline', 'C04.f-actor-loop'),
+                                         # a Pull handled by the loop while the expiry timer was already armed for an older,
+                                         # possibly later deadline: afterwards the timer is armed for the earliest deadline again
+                                         ActorLoop(ctx, 1, 1, 1, True, 'deadline', 'C04.f-actor-loop-pull', request='pull')]
 
 
 def kani_harnesses(cfg):
